@@ -5,7 +5,9 @@ OBLIGATIONS = [
     ob('C13.trichotomy', CMP + 'c13_trichotomy', 'for all t and intervals: exactly one of <, =, > holds, and != is the complement of =', units=['cmp']),
 ]
 OBLIGATIONS.append(ob('C13.precision', 'verif_frag::dateprecision::c13_precision', 'time-of-day block of parse_datetime (verbatim): a literal with day / hour / minute / second precision yields start = the given fields padded with 0 and finish = padded with 23:59:59 (closed interval it covers); a time of day outside 00:00:00..23:59:59 is rejected before chrono is called (no unwrap on None); for all captured values < 100', units=['dateprecision']))
-CANARIES = [dict(harness=CMP + 'canary_cmp_must_fail', units=['cmp'])]
+OBLIGATIONS.append(ob('C13.calendar', 'verif_frag::dateprecision::c10_date_calendar', 'calendar part of parse_datetime (verbatim, shim calendar): start and finish of the interval lie on the day written and carry the start / finish time of day (same harness as C10.date.calendar)', units=['dateprecision']))
+OBLIGATIONS.append(ob('C13.lexer.datelike', 'verif_frag::datelike::c13_datelike', 'lexer::looks_like_date (whole body verbatim on a shim regex world), every 4-digit year and 2-digit month: an unquoted word is kept together as a date exactly when it starts with a year 1970..2999 optionally followed by a month 01..12', units=['datelike']))
+CANARIES = [dict(harness='verif_frag::datelike::canary_datelike_must_fail', units=['datelike']), dict(harness=CMP + 'canary_cmp_must_fail', units=['cmp'])]
 ASSUMPTIONS = ['the interval [start, finish] delivered by Variant::to_datetime / parse_datetime satisfies start <= finish (requires; not proved: regex + chrono)',
                'timestamps are i64 seconds (and_utc().timestamp() of chrono, replaced by an identity shim in the fragment)']
 NOT_COVERED = ['parse_datetime: which interval a literal denotes (regex, chrono, chrono-english)', 'relative literals today/yesterday', 'format_datetime / the modified column rendering', 'the lexer date/minus disambiguation']
